@@ -126,6 +126,25 @@ static void prop(Ctx &c) {
     c.desc << " pin{type=" << (p.type_mode ? std::to_string(p.type) : "unset") << " digest=" << (p.have_digest ? pbt::json_escape(p.digest) : "unset") << " len=" << (p.len_mode ? std::to_string(p.len) : "unset") << "}";
     check(c, file, h, p, "random tuple"); evals++;
 
+    // "a file that opens under pinning has byte-for-byte the header the caller authenticated": with the exact
+    // digest pinned, a change to any header byte behind the lead must make the full open fail
+    {
+        lib::Pins pins; pins.type = T; pins.digest_hex = lib::hex_of(h.header_digest); if (c.boolean()) pins.length = (long)h.total_size;
+        int fd = lib::mkfd(file);
+        { zckCtx *z = zck_create(); bool ok = lib::open_pinned(z, fd, pins); zck_free(&z); if (!ok) { close(fd); c.fail("exact-pin-rejected", "the sample does not open with its own checksum type, digest" + std::string(pins.length >= 0 ? " and header length" : "") + " pinned"); } }
+        for (size_t pos = h.lead_size; pos < h.total_size; pos++) {
+            uint8_t orig = file[pos];
+            for (uint8_t v : {(uint8_t)(orig ^ 1), (uint8_t)(orig ^ 0x80), (uint8_t)(orig + 1 + (pos * 7) % 254)}) {
+                if (v == orig) continue;
+                if (pwrite(fd, &v, 1, pos) != 1) abort();
+                lseek(fd, 0, SEEK_SET); zckCtx *z = zck_create(); bool ok = lib::open_pinned(z, fd, pins); zck_free(&z); evals++;
+                if (ok) { close(fd); c.extra_evals = evals; c.fail("pinned-open-of-altered-header", "with the authentic header digest pinned, the file still opens after header byte " + std::to_string(pos) + " (behind the " + std::to_string(h.lead_size) + "-byte lead) was changed from " + std::to_string(orig) + " to " + std::to_string(v)); }
+            }
+            if (pwrite(fd, &orig, 1, pos) != 1) abort();
+        }
+        close(fd); c.label("authenticated-header-mutants");
+    }
+
     // exhaustive: every byte value at every position of the exact digest string
     if (c.rarely(3) || c.tier) {
         c.label("exhaustive-digest-string");
